@@ -845,7 +845,7 @@ fn lint_source(src: &str, must_accept: bool) -> Verdict {
 // ---------------------------------------------------------------------------------------------
 // injected violations
 
-const PRELUDE: &str = "struct ZS { int m; float2 v; int arr[2]; };\nstruct ZT { ZS s; float q; };\nenum ZE { ZA, ZB };\nstatic const int zkc = 3;\nstatic int zgs = 1;\nstatic const ZS zks = { 1, float2(1, 2), { 1, 2 } };\nvoid zo(out int x) { x = 1; }\nvoid zio(inout int x) { x += 1; }\nvoid zov(out float2 x) { x = float2(1, 2); }\nint ztwo(int a, int b) { return a + b; }\nint zdflt(int a, int b = 2) { return a + b; }\nZS zmk() { ZS s; s.m = 1; s.v = float2(0, 0); s.arr[0] = 0; s.arr[1] = 0; return s; }\nint ztakes(ZS s) { return s.m; }\nvoid znothing() { }\n";
+const PRELUDE: &str = "struct ZS { int m; float2 v; int arr[2]; };\nstruct ZT { ZS s; float q; };\nenum ZE { ZA, ZB };\nstatic const int zkc = 3;\nstatic int zgs = 1;\nstatic const ZS zks = { 1, float2(1, 2), { 1, 2 } };\nstatic const int zka[2] = { 1, 2 };\nvoid zo(out int x) { x = 1; }\nvoid zio(inout int x) { x += 1; }\nvoid zov(out float2 x) { x = float2(1, 2); }\nint ztwo(int a, int b) { return a + b; }\nint zdflt(int a, int b = 2) { return a + b; }\nZS zmk() { ZS s; s.m = 1; s.v = float2(0, 0); s.arr[0] = 0; s.arr[1] = 0; return s; }\nint ztakes(ZS s) { return s.m; }\nvoid znothing() { }\n";
 
 /// (name, declarations inside the function, the bad expression or statement, the valid twin)
 /// `@` marks where the context wrapper puts the expression; entries with kind 's' are whole statements.
@@ -949,6 +949,9 @@ const VIOLATIONS: &[(&str, &str, char, &str, &str)] = &[
     // whole arrays
     ("const-array-assign", "const int c[2] = { 1, 2 }; int n[2] = { 1, 2 }; int o[2] = { 3, 4 };", 'e', "c = o", "n = o"),
     ("const-global-array-assign", "int n[2] = { 1, 2 };", 'e', "zks.arr = n", "n = zks.arr"),
+    ("const-global-whole-array-assign", "int n[2] = { 1, 2 };", 'e', "zka = n", "n[0] = zka[0]"),
+    ("const-global-array-from-const-array", "", 'e', "zka = zks.arr", "zgs = zka[0]"),
+    ("const-global-array-element", "int n[2] = { 1, 2 };", 'e', "zka[1] = 3", "n[1] = zka[1]"),
     // increment and decrement of what has no arithmetic
     ("struct-increment", "ZS s = zmk();", 'e', "s++", "s.m++"),
     ("struct-predecrement", "ZS s = zmk();", 'e', "--s", "--s.m"),
